@@ -54,6 +54,21 @@ def scenarios(tier, rng):
                 sc["refkey"] += "-rtol"
                 sc["name"] += "-dev" + "".join(str(g.get("n_devices", 1)) for g in gens)
             out.append(sc)
+    # processes that do NOT switch 64-bit mode on by hand (a user script that just imports mdpax) and build the solver
+    # from a configuration alone: the run resumed by restore() in such a process must still follow the uninterrupted
+    # run of such a process bit for bit (problems that precompute float tables: precision of those tables included)
+    for kind, pname in ([("VI", "de_moor"), ("RVI", "hendrix")] if tier == "quick" else
+                        [("VI", "de_moor"), ("RVI", "hendrix"), ("PI", "mirjalili"), ("VI", "forest"), ("PVI", "mirjalili")]):
+        pspec, full = P[pname]
+        for k in ([3] if tier == "quick" else [1, 4, 7]):
+            sc = base_scenario(f"{kind}-{pname}-k{k}-config-only-no-x64-by-hand", kind, pname, pspec, full, 1, 2, False,
+                               [{"ops": [{"op": "new", "config_only": True}, {"op": "solve", "k": k}, {"op": "wait"},
+                                         {"op": "list", "dir": "@A"}]},
+                                {"ops": [{"op": "list", "dir": "@A"}, restore_op(full), {"op": "solve", "k": BIG},
+                                         {"op": "wait"}, {"op": "list", "dir": "@A"}]}],
+                               no_x64=True, new_op={"config_only": True})
+            sc["refkey"] += "-config-only-no-x64"
+            out.append(sc)
     return out
 
 
